@@ -16,6 +16,8 @@ def flush_raises(eng, st, outs):
         r = st.copy()
         r.pc = st.pc[:npc] + [cond]
         r.trail.append("raise %s" % exc)
+        if exc == 'WorkerError':
+            r.env['_any_task_failed'] = vbool(True)    # ghost: a worker failure was observed on this path
         outs.append((('raise', exc), r))
     st.pending_raises = []
 
@@ -180,6 +182,8 @@ def st_Assign(eng, node, st):
         v = eng.ev(node.value, st)
     finally:
         st.hint_ek = None
+    if hk and isinstance(v.k, tuple) and v.k[0] == 'list' and v.k[1] == 'none' and hk[0] == 'list':
+        v = Val(hk, v.t)        # [None] * n declared as a list of (nullable) references
     for t in node.targets:
         assign_to(eng, st, t, v, node)
     outs = []
@@ -294,8 +298,9 @@ def st_Try(eng, node, st):
         eng.frame.try_handlers.pop()
     res = []
     for (o, s) in outs:
-        if o[0] == 'raise' and o[1] in handled:
-            h = [x for x in node.handlers if x.type.id == o[1]][0]
+        catch_all = handled & {'Exception', 'BaseException'}
+        if o[0] == 'raise' and (o[1] in handled or catch_all):
+            h = [x for x in node.handlers if x.type.id == o[1] or x.type.id in ('Exception', 'BaseException')][0]
             if h.name:
                 s.env[h.name] = Val(('opaque', 'exception'), z3.IntVal(0))
             s.trail.append("except %s@L%d" % (o[1], h.lineno))
